@@ -766,6 +766,12 @@ class C13(fw.Check):
             return [rng.randint(-3, 5) for _ in range(rng.choice([0, 0, 0, 1, 2, 3]))]
 
         sc.op('spec', anyargs() if rng.random() < 0.3 else [], anykw())
+        if rng.random() < 0.8:
+            fill = {k: rng.randint(-3, 5) for k in toy.sig['mand']}
+            if fill:
+                sc.op('update', [], fill)
+            sc.op('build', 0, [], {})
+            sc.op('build', 1, [], {})
         for _ in range(rng.randint(8, 30)):
             o = rng.choice(['update', 'reset', 'bpickle', 'build', 'build', 'train', 'train', 'train', 'apply', 'apply',
                             'params', 'setparams', 'stateful', 'getstate', 'getstate', 'setstate', 'setstate', 'setempty',
